@@ -62,6 +62,9 @@ package genql
 //@   modifies nothing
 
 //@ func FirstFunc
+//@   requires json0: len(args) > 0 ==> spec.JSONValue(args[0])
+//@   requires json1: len(args) > 1 ==> spec.JSONValue(args[1])
+//@   requires json2: len(args) > 2 ==> spec.JSONValue(args[2])
 //@   safety[C18]
 //@   errors[C18]
 //@   ensures arity[C18]: len(args) != 1 ==> err != nil
@@ -71,6 +74,9 @@ package genql
 //@   modifies nothing
 
 //@ func LastFunc
+//@   requires json0: len(args) > 0 ==> spec.JSONValue(args[0])
+//@   requires json1: len(args) > 1 ==> spec.JSONValue(args[1])
+//@   requires json2: len(args) > 2 ==> spec.JSONValue(args[2])
 //@   safety[C18]
 //@   errors[C18]
 //@   ensures arity[C18]: len(args) != 1 ==> err != nil
@@ -80,6 +86,9 @@ package genql
 //@   modifies nothing
 
 //@ func ElementAtFunc
+//@   requires json0: len(args) > 0 ==> spec.JSONValue(args[0])
+//@   requires json1: len(args) > 1 ==> spec.JSONValue(args[1])
+//@   requires json2: len(args) > 2 ==> spec.JSONValue(args[2])
 //@   safety[C18]
 //@   errors[C18]
 //@   ensures arity[C18]: len(args) != 2 ==> err != nil
@@ -96,6 +105,9 @@ package genql
 //@   modifies nothing
 
 //@ func IfFunc
+//@   requires json0: len(args) > 0 ==> spec.JSONValue(args[0])
+//@   requires json1: len(args) > 1 ==> spec.JSONValue(args[1])
+//@   requires json2: len(args) > 2 ==> spec.JSONValue(args[2])
 //@   safety[C18]
 //@   errors[C18]
 //@   ensures arity[C18]: len(args) != 3 ==> err != nil
@@ -106,22 +118,34 @@ package genql
 
 //@ func ConcatFunc
 //@   safety[C18]
+//@   loop 0 invariant frame[C18]: elems(args) == old(elems(args))
 //@   loop 0 invariant text[C18]: buf(&buffer) == spec.ConcatText(elems(args), off(args), rangeindex + 1)
 //@   ensures text[C18]: err == nil && result == any(spec.ConcatText(elems(args), off(args), len(args)))
 
 //@ func ToLowerFunc
+//@   requires json0: len(args) > 0 ==> spec.JSONValue(args[0])
+//@   requires json1: len(args) > 1 ==> spec.JSONValue(args[1])
+//@   requires json2: len(args) > 2 ==> spec.JSONValue(args[2])
 //@   safety[C18]
 //@   errors[C18]
 //@   ensures arity[C18]: len(args) != 1 ==> err != nil
+//@   ensures null[C18]: len(args) == 1 && args[0] == nil ==> err == nil && result == nil
 //@   ensures lower[C18]: len(args) == 1 && typeis(args[0], string) ==> err == nil && result == any(spec.ToLower(args[0].(string)))
 
 //@ func ToUpperFunc
+//@   requires json0: len(args) > 0 ==> spec.JSONValue(args[0])
+//@   requires json1: len(args) > 1 ==> spec.JSONValue(args[1])
+//@   requires json2: len(args) > 2 ==> spec.JSONValue(args[2])
 //@   safety[C18]
 //@   errors[C18]
 //@   ensures arity[C18]: len(args) != 1 ==> err != nil
+//@   ensures null[C18]: len(args) == 1 && args[0] == nil ==> err == nil && result == nil
 //@   ensures upper[C18]: len(args) == 1 && typeis(args[0], string) ==> err == nil && result == any(spec.ToUpper(args[0].(string)))
 
 //@ func DateRangeFunc
+//@   requires json0: len(args) > 0 ==> spec.JSONValue(args[0])
+//@   requires json1: len(args) > 1 ==> spec.JSONValue(args[1])
+//@   requires json2: len(args) > 2 ==> spec.JSONValue(args[2])
 //@   safety[C18]
 //@   errors[C18]
 //@   ensures arity[C18]: len(args) != 2 ==> err != nil
